@@ -214,10 +214,15 @@ class RT:
         n = self.team_default if n is None else int(n)
         return max(1, n)
 
-    def _assign(self, iters, T):
+    def _assign(self, iters, T, kind=None, chunk=None):
         """Iteration -> thread map for the statically decided kinds; None for dynamic ones."""
         n = len(iters)
-        kind = self.sched_kind
+        kind = kind or self.sched_kind
+        if kind == "static" and chunk:
+            out = [[] for _ in range(T)]
+            for b, start in enumerate(range(0, n, int(chunk))):
+                out[b % T].extend(iters[start:start + int(chunk)])
+            return out
         if kind == "static":
             per, rem = divmod(n, T)
             out, k = [], 0
@@ -295,8 +300,12 @@ class RT:
             self.det.access(t, ev[0], (ev[1], ev[2]))
 
     # ---- constructs called from translated code
-    def parallel_for(self, iters, num_threads, body, privates, reductions, site):
+    def parallel_for(self, iters, num_threads, body, privates, reductions, site,
+                     schedule=None, chunksize=None):
         iters = list(iters)
+        if schedule in ("runtime", None):
+            schedule = None  # unspecified: every legal schedule may be chosen by the seed
+        kind = schedule or self.sched_kind
         T = self._team(num_threads)
         self.max_team = max(self.max_team, T)
         self.regions += 1
@@ -305,11 +314,10 @@ class RT:
         for p in ps:
             for r in reductions:
                 setattr(p, r, 0.0)
-        static = self._assign(iters, T)
+        static = self._assign(iters, T, kind, chunksize)
         queue = list(iters)
         last = {}
         rng = self.rng
-        remaining = [len(iters)]
 
         def thread(k, p):
             if static is not None:
@@ -320,10 +328,10 @@ class RT:
                         last.update({n: p.__dict__[n] for n in privates if n in p.__dict__})
                 return
             while queue:
-                if self.sched_kind == "guided":
-                    c = max(1, len(queue) // (2 * T))
+                if kind == "guided":
+                    c = max(int(chunksize or 1), len(queue) // (2 * T))
                 else:
-                    c = rng.choice([1, 1, 2])
+                    c = int(chunksize) if chunksize else rng.choice([1, 1, 2])
                 chunk = queue[:c]
                 del queue[:c]
                 for it in chunk:
@@ -334,6 +342,13 @@ class RT:
         self.det.fork("m", tids)
         self._run_threads([thread(k, p) for k, p in enumerate(ps)], tids)
         self.det.join("m", tids)
+        red = {}
+        for r in reductions:
+            tot = 0.0
+            for p in ps:  # thread order
+                tot = tot + p.__dict__.get(r, 0.0)
+            red[r] = tot
+        last["__red__"] = red
         return last
 
     def parallel_region(self, num_threads, region, privates, site):
@@ -354,7 +369,7 @@ class RT:
         self.det.join("m", tids)
         return {}
 
-    def workshare(self, p, site, iters, body, nowait):
+    def workshare(self, p, site, iters, body, nowait, schedule=None, chunksize=None):
         """Work sharing loop encountered by thread ``p`` inside a parallel region."""
         iters = list(iters)
         enc = p.__dict__["_enc"]
@@ -365,7 +380,9 @@ class RT:
         k = p.__dict__["_k"]
         inst = self._ws.get(key)
         if inst is None:
-            inst = {"static": self._assign(iters, T), "queue": list(iters), "iters": iters}
+            inst = {"static": self._assign(iters, T, schedule if schedule != "runtime" else None,
+                                           chunksize),
+                    "queue": list(iters), "iters": iters}
             self._ws[key] = inst
         elif inst["iters"] != iters:
             # threads of one team disagree on the iteration space of the same loop instance
